@@ -3,14 +3,16 @@ from simpex import unicode_fam
 from simpex.runner import CheckSpec
 from checks.c01_c03_engine import COMPONENTS
 
-RULE = ('(a) complete sweep: 5 short texts (2/3/4-byte UTF-8, surrogate pairs, CJK) x 9 encodings x EVERY byte offset as the cut, '
+RULE = ('(a) complete sweep: 7 short texts (2/3/4-byte UTF-8, surrogate pairs, CJK) x 12 encodings (incl. the stateful 7-bit iso2022_jp, hz, utf-7) x EVERY byte offset as the cut, '
         'delivered as two peer writes or as one write torn by the kernel, transports rotated (all four in the thorough tier); '
-        '(b) seeded exploration: texts of 1..60 characters over ASCII/2/3/4-byte/CJK pools x 13 encodings (+ bytes mode with '
+        '(b) seeded exploration: texts of 1..60 characters over ASCII/2/3/4-byte/CJK pools x 21 encodings and spellings (stateful 7-bit codecs, aliases such as utf8 / latin1; + bytes mode with '
         'arbitrary bytes) x up to 3 cuts x {split write, torn read, maxread 1..3} x 4 transports x codec_errors strict/replace/'
         'ignore (invalid bytes injected only under replace/ignore) x {logfile, logfile_read} x blocking or awaited (asyncio path, pty/fd) x drain by read()/expect(EOF)/'
         'per-character expect. Oracle: text handed to the caller, text fed to matching (recorded reads) and text written to each '
         'log == codecs.decode(whole byte stream, encoding, errors) and has the API string type; bytes mode passes bytes through. '
         'Inputs on which CPython\'s own incremental decoder is chunk-dependent are skipped and counted. '
+        'Added later: codec_errors backslashreplace / surrogateescape; fdspawn reading through a regular file that a peer keeps '
+        'appending to (an empty read at the current end, reported as EOF, is not the end of the stream: read on after the next append). '
         'Non-trivial: at least one cut; distinct by trace digest')
 
 ASSUME = ['streams never end inside a character (as the property states)',
